@@ -26,7 +26,7 @@ Proof.
 Qed.
 
 Definition did_oracles : oracles :=
-  {| o_unbech := toy_unbech; o_fee_collector := [xff]; o_blocked := [];
+  {| o_unbech := toy_unbech; o_bech := (fun a => a); o_fee_collector := [xff]; o_blocked := [];
      o_b58key := fun s => Some s; o_verify := ideal_verify |}.
 
 Definition D1 : bytes := b "did:panacea:11111111111111111111111111111111".
